@@ -25,7 +25,7 @@ func init() {
 }
 
 func (p *Prog) maxArrayIndexGlobal() *ssa.Global {
-	g, _ := p.SPkg("lua").Members["MaxArrayIndex"].(*ssa.Global)
+	g := p.Global("lua", "MaxArrayIndex")
 	return g
 }
 
